@@ -121,7 +121,20 @@ def generate(seed):
     g = G(seed)
     maxdepth = g.r.choice([1, 2, 2])
     root = g.machine(0, maxdepth, 'p')
-    return {'name': 'G%d' % seed, 'events': list(EVENTS), 'flags': [], 'root': root}
+    # flags (C17): passive, so they are drawn from a separate stream - the machine structure of a seed stays put;
+    # on simple states and on submachine states at every level (a flag 2+ levels down must be seen from the root)
+    fr = random.Random(seed * 31 + 5)
+
+    def flag(m, depth):
+        for st in m['states'].values():
+            if fr.random() < 0.35:
+                st['flags'] = [f for f in ('F0', 'F1') if fr.random() < 0.6] or ['F0']
+            if depth >= 2 and fr.random() < 0.5:
+                st['flags'] = st['flags'] + ['F2']      # F2 lives two or more levels down only: nothing shallower masks it
+            if st['kind'] == 'sub':
+                flag(st['machine'], depth + 1)
+    flag(root, 0)
+    return {'name': 'G%d' % seed, 'events': list(EVENTS), 'flags': ['F0', 'F1', 'F2'], 'root': root}
 
 
 # ---------------------------------------------------------------------------------------------------------
